@@ -119,6 +119,8 @@ public:
         if (_seq._last < 0) _seq._last += N + /*including the end point*/ 1;
         if (_seq._first < 0) _seq._first += N + /*including the end point*/ 1;
     }
+    // the generic n-dimensional view (used for 1D TensorMaps) hands over its sequences as an array
+    FASTOR_INLINE TensorViewExpr(Tensor<T,N> &_ex, const std::array<seq,1> &_s) : TensorViewExpr(_ex, _s[0]) {}
 
     // View evalution operators
     // Copy assignment operators [Needed in addition to generic AbstractTensor overload]
